@@ -97,6 +97,13 @@ def make_pool():
     add("RB3", RB3, B, [dict(d=b"abc"), dict(d=b"")])
     add("ProcessXor", C.ProcessXor(this._params.k, H), B, [dict(k=1, n=2)], kws=({"k": 0x5a}, {"k": b"\x01\x02"}, {}))
     add("Compressed", C.Prefixed(C.Byte, C.Compressed(C.GreedyBytes, "zlib")), B + [b"\x08x\x9c\x03\x00\x00\x00\x00\x01"], [b"", b"abcabc"])
+    # transforms with constant multi-byte parameters, on data whose length is not a multiple of the parameter's length (whatever a
+    # call leaves behind - a position in the key, a table, a buffer - must not show in the next call)
+    add("ProcessXor(const key)", C.ProcessXor(b"\x01\x02\x03", C.GreedyBytes), B + [b"a", b"abcd", b"ab", b"abcde"], [b"a", b"abcd", b"ab", b"xyzzy", b""])
+    add("Prefixed(ProcessXor(const key))", C.Struct("p" / C.Prefixed(C.Byte, C.ProcessXor(b"\x10\x20\x30\x40\x50", C.GreedyBytes)), "t" / C.Byte), B + [b"\x02ab\x07", b"\x07abcdefg\x01", b"\x01z\x02"],
+        [dict(p=b"ab", t=1), dict(p=b"abcdefg", t=2), dict(p=b"q", t=3)])
+    add("ProcessRotateLeft(const)", C.ProcessRotateLeft(3, 2, C.GreedyBytes), B + [b"ab", b"abcd", b"abcdef"], [b"ab", b"wxyz", b""])
+    add("Array(ProcessXor element)", C.Array(3, C.FixedSized(2, C.ProcessXor(b"\xaa\x55\x0f", C.GreedyBytes))), B + [b"abcdef", b"\x00" * 6], [[b"ab", b"cd", b"ef"], [b"\x00\x00"] * 3])
     add("Checksum", C.Struct("f" / C.RawCopy(H), "c" / C.Checksum(C.Byte, lambda d: sum(d) & 255, this.f.data)), B + [b"\x01\x02\x03"], [dict(f=dict(value=dict(k=1, n=2)))], posfree=False)
     add("Tell/Pointer", C.Struct("t" / C.Tell, "p" / C.Pointer(0, C.Byte), "x" / C.Byte), B, [dict(p=1, x=2)], posfree=False)
     add("Peek", C.Sequence(C.Peek(C.Int16ub), C.Byte), B, [[None, 1]])
